@@ -94,6 +94,8 @@ class Scoping(object):
                     ops += ["ctx-finished", "run-finished"]
             if full and len(self.all_actions) < 6:
                 ops.append("make")
+            if full and self.stack and self.top() not in self.finished:
+                ops.append("finish-in")
             for j in range(1, depth + 1):
                 ops.append(("raise", j))
             op = ops[ctx.choose(len(ops), "op@%d" % depth)]
@@ -108,7 +110,15 @@ class Scoping(object):
                 if depth >= 2:
                     self.flags.add("inner-raise")
                 raise e
-            self.ops.append(op + ("(" if op not in ("msg", "task", "make") else ""))
+            self.ops.append(op + ("(" if op not in ("msg", "task", "make", "finish-in") else ""))
+            if op == "finish-in":
+                # the current action is finished explicitly inside its own block: it stays current until the block is left
+                a = self.top()
+                a.finish()
+                self.finished.append(a)
+                self.flags.add("finished-inside")
+                self.expect("after finish() of the current action inside its own block")
+                continue
             if self.ctx.shard.get("interrupt") and op in ("msg", "task", "make"):
                 try:
                     self.simple_op(op)
